@@ -902,7 +902,8 @@ def judge_case(prop, kind, lines):
             if ln.fault:
                 survivable = ln.op.startswith("!cmp") or (ln.op.startswith("!cb") and ln.args and ln.args[0] in (
                     "change_priority_by", "pop_if", "pop_min_if", "pop_max_if", "extend", "from_iter")) or (
-                    ln.op.startswith("!cl") and ln.args and ln.args[0] in ("clone_swap", "clone_from"))
+                    ln.op.startswith("!cl") and ln.args and ln.args[0] in ("clone_swap", "clone_from")) or (
+                    ln.op.startswith("!dr") and ln.args and ln.args[0] == "clear")
                 if ln.res != "fault user" or not survivable:
                     return None            # other fault kinds are judged by the C10 crash stream, not here
                 # the panic was caught and the queue survives (C10): the case goes on from the post-unwinding state read
@@ -921,7 +922,7 @@ def judge_case(prop, kind, lines):
                     msg = j_cost_crashed(kpre, ppre, pre, ln.args[0], ln.args[1:])
                     if msg:
                         return (idx, msg)
-                if prop in ("C03", "C11", "C12") and not ln.op.startswith("!cl"):
+                if prop in ("C03", "C11", "C12") and not ln.op.startswith(("!cl", "!dr")):
                     msg = j_crash_atomic(kpre, ppre, pre, ln.args[0], ln.args[1:], was_unordered)
                     if msg:
                         return (idx, msg)
